@@ -721,8 +721,27 @@ class K4(nn.Module):
         return self.o(torch.relu(self.cons(z)))
 
 
-FAMILIES.update({'O1': O1, 'W2': W2, 'Z1': Z1, 'A2': A2, 'Q2': Q2, 'K4': K4})
-_SHAPES.update({'Q2': lambda s: (s.get('cin', 1), s.get('T', 2), 1), 'K4': lambda s: (s.get('cin', 1), 2), 'A2': lambda s: (s.get('cin', 1), s.get('T', 2)) if s.get('nd', 1) == 1 else (s.get('cin', 1), s.get('T', 2), s.get('T', 2)), 'Z1': lambda s: (s.get('cin', 1), s.get('HW', 2)) if s.get('nd', 2) == 1 else (s.get('cin', 1), s.get('HW', 2), s.get('HW', 2)), 'O1': lambda s: (s.get('cin', 1), 2), 'W2': lambda s: (s.get('cin', 1), 2) if s.get('nd', 1) == 1 else (s.get('cin', 1), 2, 2)})
+class X2(nn.Module):
+    """searchable conv `a` feeding the excluded conv `b` DIRECTLY (no op in between) or only through a channel concat with the input; then relu -> conv c
+    (the features consumed by a layer that keeps its static shape cannot be pruned)"""
+
+    def __init__(self, C=2, cin=1, via='direct'):
+        super().__init__()
+        self.via = via
+        self.inp = nn.Identity()
+        self.a = nn.Conv1d(cin, C, 1)
+        self.b = nn.Conv1d(C + (cin if via == 'cat' else 0), C + 1, 1)
+        self.c = nn.Conv1d(C + 1, 2, 1)
+
+    def forward(self, x):
+        y = self.a(x)
+        if self.via == 'cat':
+            y = torch.cat([y, self.inp(x)], dim=1)
+        return self.c(torch.relu(self.b(y)))
+
+
+FAMILIES.update({'O1': O1, 'W2': W2, 'Z1': Z1, 'A2': A2, 'Q2': Q2, 'K4': K4, 'X2': X2})
+_SHAPES.update({'X2': lambda s: (s.get('cin', 1), 2), 'Q2': lambda s: (s.get('cin', 1), s.get('T', 2), 1), 'K4': lambda s: (s.get('cin', 1), 2), 'A2': lambda s: (s.get('cin', 1), s.get('T', 2)) if s.get('nd', 1) == 1 else (s.get('cin', 1), s.get('T', 2), s.get('T', 2)), 'Z1': lambda s: (s.get('cin', 1), s.get('HW', 2)) if s.get('nd', 2) == 1 else (s.get('cin', 1), s.get('HW', 2), s.get('HW', 2)), 'O1': lambda s: (s.get('cin', 1), 2), 'W2': lambda s: (s.get('cin', 1), 2) if s.get('nd', 1) == 1 else (s.get('cin', 1), 2, 2)})
 
 
 def flat_outputs(y):
